@@ -118,6 +118,12 @@ func c34MRSW(kinds []string) func(*vs.Sched, func(string, string, ...any)) strin
 		m := NewMultiRSW()
 		readers, writers := 0, 0 // holders between acquire success and release return
 		inR, inW := 0, 0
+		qIn, nQ := 0, 0
+		for _, k := range kinds {
+			if k == "Q" {
+				nQ++
+			}
+		}
 		var log []string
 		check := func(who string) {
 			if inW > 1 || (inW > 0 && inR > 0) {
@@ -161,6 +167,19 @@ func c34MRSW(kinds []string) func(*vs.Sched, func(string, string, ...any)) strin
 					m.BeginReadBlocking()
 					readers++
 					log = append(log, name+":in")
+					rcs(name)
+					m.EndRead()
+					readers--
+				})
+			case "Q": // blocking reader that stays inside until every Q reader is inside: readers share the lock, so
+				// once no writer holds it every parked reader must get in, not one per release
+				s.Go(name, func() {
+					m.BeginReadBlocking()
+					readers++
+					qIn++
+					vs.Touch("c34:q")
+					log = append(log, name+":in")
+					vs.Block("all-readers-inside", func() bool { return qIn >= nQ }, "c34:q")
 					rcs(name)
 					m.EndRead()
 					readers--
@@ -333,6 +352,62 @@ func c34RT(targets []uint64, signals [][]uint64, unsub int) func(*vs.Sched, func
 	}
 }
 
+// c34RTReset: an index target that is reset (the store does this when it is re-opened) must forget the
+// indexes reached before the reset: a waiter for an index at or below the old mark is woken only when that
+// index is signalled again.
+func c34RTReset(before, target uint64) func(*vs.Sched, func(string, string, ...any)) string {
+	return func(s *vs.Sched, vio func(string, string, ...any)) string {
+		rt := NewReadyTarget[uint64]()
+		var obs []string
+		closed := func(ch <-chan struct{}) bool {
+			select {
+			case <-ch:
+				return true
+			default:
+				return false
+			}
+		}
+		// a bystander subscribed before the reset to an index never reached: never woken
+		var by <-chan struct{}
+		s.Go("bystander", func() { by = rt.Subscribe(before + 100) })
+		s.Go("driver", func() {
+			for x := uint64(1); x <= before; x++ {
+				rt.Signal(x)
+			}
+			vs.Point("rt:reset", "c34:sig")
+			rt.Reset()
+			ch := rt.Subscribe(target)
+			if closed(ch) {
+				vio("C34:rt-woken-early", "Signal(1..%d), Reset, Subscribe(%d): the waiter is released although nothing has been signalled since the reset", before, target)
+				obs = append(obs, "early-at-subscribe")
+			}
+			for x := uint64(1); x <= target; x++ {
+				vs.Point("rt:resignal", "c34:sig")
+				rt.Signal(x)
+				if x < target && closed(ch) {
+					vio("C34:rt-woken-early", "after a reset the waiter for %d is released when only %d has been signalled", target, x)
+					obs = append(obs, fmt.Sprintf("early-at-%d", x))
+				}
+			}
+			if !closed(ch) {
+				vio("C34:rt-not-woken", "after a reset the waiter for %d is still waiting after Signal(%d) returned", target, target)
+				obs = append(obs, "not-woken")
+			}
+		})
+		if st := s.Run(); st != vs.Done {
+			if st == vs.Redundant {
+				return ""
+			}
+			vio("C34:rt-stuck", "execution ended %v: %v", st, s.Blocked())
+			return "stuck"
+		}
+		if by != nil && closed(by) {
+			vio("C34:rt-woken-early", "bystander waiting for %d woken although at most %d was signalled", before+100, before)
+		}
+		return strings.Join(obs, ",")
+	}
+}
+
 func TestVerif_C34(t *testing.T) {
 	r := kit.Start(t, "C34", "sched")
 	defer r.Finish()
@@ -349,6 +424,10 @@ func TestVerif_C34(t *testing.T) {
 		{"rt-2sub-1sig", c34RT([]uint64{1, 2}, [][]uint64{{1, 2}}, -1), -1, -1},
 		{"rt-3sub-2sig", c34RT([]uint64{1, 2, 3}, [][]uint64{{2}, {1}}, -1), 2, 3},
 		{"rt-unsub", c34RT([]uint64{2, 2}, [][]uint64{{1, 2}}, 0), -1, -1},
+		{"mrsw-W-Q-Q", c34MRSW([]string{"W", "Q", "Q"}), -1, -1},
+		{"mrsw-W-Q-Q-Q", c34MRSW([]string{"W", "Q", "Q", "Q"}), 3, 4},
+		{"rt-reset-3-then-2", c34RTReset(3, 2), -1, -1},
+		{"rt-reset-3-then-3", c34RTReset(3, 3), -1, -1},
 	}
 	if r.Thorough() {
 		scs = append(scs,
